@@ -1,6 +1,9 @@
 package drivers
 
 import (
+	logging "github.com/ipfs/go-log/v2"
+	"github.com/evstack/ev-node/sequencers/single"
+	"github.com/evstack/ev-node/block"
 	"context"
 	"fmt"
 	mrand "math/rand"
@@ -91,6 +94,64 @@ func lazyScenarioResume(c *Ctx, run string, lazy bool, bt, lz int, durs []int, n
 	})
 }
 
+// lazyReaperScenario: the whole notification path of a lazy node - the real reaper takes a transaction from the
+// mempool and hands it to the real single sequencer, which takes a while to acknowledge (longer than one block
+// interval, so that a block timer tick falls inside the hand-off); the real production function builds the blocks.
+// "Notified of new transactions" is the moment the transactions are in the sequencing layer: from then on a block
+// must start within one block interval (and it is the block that carries them, or a further one does).
+func lazyReaperScenario(c *Ctx, run string, bt, lz, at, delay int) {
+	synctest.Run(func() {
+		c.Tr.Reset(run, world.F{"driver": "lazy", "ih": 1})
+		w := world.NewWorld(c.Tr, 1, time.Now().Add(-time.Hour))
+		defer w.Close()
+		n := w.NewNode(world.NodeOpts{Name: "seq", Aggregator: true, Lazy: true, BlockTime: time.Duration(bt) * lazyTick, LazyInterval: time.Duration(lz) * lazyTick})
+		seq, err := single.NewSequencer(context.Background(), logging.Logger("verif-seq"), n.KV, w.DA, []byte(world.ChainID), time.Second, nil, true)
+		if err != nil {
+			return
+		}
+		n.SeqD.Inner = seq
+		n.SeqD.SubmitDelay = time.Duration(delay) * lazyTick
+		if err := n.Start(context.Background()); err != nil {
+			return
+		}
+		reaper := block.NewReaper(context.Background(), n.Exec, n.Seq, world.ChainID, time.Second, logging.Logger("verif-reaper"), n.KV)
+		reaper.SetManager(n.M)
+		t0 := time.Now()
+		ms := func() int { return int(time.Since(t0) / time.Millisecond) }
+		k := 0
+		n.KV.Tap = func(rec world.F) { // production seen at its durable writes: first save of the block .. chain height raised
+			switch {
+			case rec["kind"] == "block" && rec["fin"] == false:
+				k++
+				c.Tr.Emit("ProdStart", world.F{"t": ms(), "k": k})
+			case rec["kind"] == "height":
+				c.Tr.Emit("ProdEnd", world.F{"t": ms(), "k": k})
+			}
+		}
+		c.Tr.Emit("LazyCfg", world.F{"lazy": true, "bt": bt * 10, "lz": lz * 10})
+		ctx, cancel := context.WithCancel(context.Background())
+		errCh := make(chan error, 1)
+		done := make(chan struct{})
+		go func() {
+			defer close(done)
+			n.M.AggregationLoop(ctx, errCh)
+		}()
+		time.Sleep(time.Duration(at) * lazyTick)
+		synctest.Wait()
+		tx := []byte(fmt.Sprintf("lazy-tx-%d", at))
+		w.IDs.Name(tx, "lz")
+		n.Exec.Inject(tx)
+		reaper.SubmitTxs() // returns when the hand-off is through
+		c.Tr.Emit("Notify", world.F{"t": ms()})
+		time.Sleep(time.Duration(lz+2*bt) * lazyTick)
+		synctest.Wait()
+		c.Tr.Emit("LazyEnd", world.F{"t": ms()})
+		cancel()
+		<-done
+		n.KV.Tap = nil
+	})
+}
+
 // RunLazy enumerates block/idle interval ratios, production durations shorter and longer than the
 // block interval, and notification instants (including inside a production) in lazy and normal mode.
 func RunLazy(c *Ctx) {
@@ -98,6 +159,15 @@ func RunLazy(c *Ctx) {
 	durSets := [][]int{{0}, {1}, {3}, {5}, {4, 0}, {0, 4}, {2, 7, 0}}
 	type cfg struct{ bt, lz int }
 	cfgs := []cfg{{2, 5}, {3, 6}, {2, 2}, {3, 7}, {2, 9}, {3, 1}, {4, 2}}
+	// the real reaper and a sequencing layer that is slow to acknowledge
+	for _, cf := range []struct{ bt, lz int }{{3, 30}, {2, 20}} {
+		for _, at := range []int{4, 5, 6, 7} {
+			for _, delay := range []int{1, cf.bt + 1, 2*cf.bt + 1} {
+				lazyReaperScenario(c, fmt.Sprintf("lazy/reaper/bt%d-lz%d/at%d/d%d", cf.bt, cf.lz, at, delay), cf.bt, cf.lz, at, delay)
+				c.Count("lazyruns", 1)
+			}
+		}
+	}
 	// a restarted node (existing chain, last block a tick or two old) that is notified right after its start
 	for _, lazy := range []bool{true, false} {
 		for _, cf := range cfgs {
